@@ -25,10 +25,9 @@ func (g *GetLabelsPlanner) Process(ctx *shared.PlannerContext) (sql.ISelect, err
 		return nil, err
 	}
 
-	newFpCol := sql.NewSimpleCol("fingerprint", "new_fingerprint")
+	newFpCol := sql.NewSimpleCol("cityHash64(tags)", "new_fingerprint")
 	tagsCol := sql.NewSimpleCol("arraySort(p.tags)", "tags")
 	if len(g.GroupBy) > 0 {
-		newFpCol = sql.NewSimpleCol("cityHash64(tags)", "new_fingerprint")
 		tagsCol = sql.NewCol(sql.NewCustomCol(func(ctx *sql.Ctx, options ...int) (string, error) {
 			sqlGroupBy := make([]sql.SQLObject, len(g.GroupBy))
 			for i, col := range g.GroupBy {
